@@ -257,11 +257,40 @@ _PASS_WITH_SYM = {
 }
 
 
+SQRT = z3.Function("sqrt", z3.RealSort(), z3.RealSort())
+
+
+class _BasicLinalg:
+    def __init__(self):
+        self._real = _np.linalg
+
+    def __getattr__(self, k):
+        v = getattr(self._real, k)
+
+        def guarded(*a, **kw):
+            if has_sym(a) or has_sym(kw):
+                raise HarnessError("unmodelled numpy.linalg.%s with symbolic argument" % k)
+            return _wrap_result(v(*[conc(x) for x in a], **{kk: conc(x) for kk, x in kw.items()}))
+
+        return guarded if callable(v) else v
+
+    def norm(self, x, *a, **k):
+        if not has_sym(x):
+            return self._real.norm(conc(_np.asarray(x)), *a, **k)
+        if a or k:
+            raise HarnessError("np.linalg.norm with options on symbolic argument")
+        ss = 0.0
+        for v in _np.asarray(x, dtype=object).ravel():
+            ss = ss + v * v
+        return SR(SQRT(lift(ss)))  # uninterpreted (only used for penalties / distances, never in an obligation)
+
+
 class ShimNP:
     """module-like stand-in for numpy"""
 
     def __init__(self):
         self.calls = {}
+        self.linalg = _BasicLinalg()
 
     def _count(self, k):
         self.calls[k] = self.calls.get(k, 0) + 1
